@@ -71,6 +71,7 @@ class Sim:
         self._sigs: set[str] = set()
         self._classes: set[str] = set()
         self.monitors: list[Callable] = []  # fn(chan_name, direction, data)
+        self.delivery_exceptions: list[tuple[str, str, str]] = []
         self._patches: list = []
         self._install_patches()
 
@@ -250,9 +251,15 @@ class SimChannel:
     def send(self, item) -> None:
         if self.closed:
             return
+        self.sim.tap(self.name, 'tx', item if isinstance(item, bytes) else item[0])
         items = [item] if self.transform is None else self.transform(item)
         for it in items:
             self._send1(it)
+
+    def inject(self, item) -> None:
+        """Put an item into the FIFO that the sender never sent (fault injection)."""
+        if not self.closed:
+            self._send1(item)
 
     def _send1(self, item) -> None:
         sim = self.sim
@@ -277,6 +284,9 @@ class SimChannel:
         self.sim.tap(self.name, 'rx', item if isinstance(item, bytes) else item[0])
         try:
             self.deliver(item)
+        except Exception as e:  # what the event loop would do: log and carry on
+            self.sim.delivery_exceptions.append((self.name, type(e).__name__, str(e)[:200]))
+            self.sim.trace.ev(self.sim.loop.time(), 'exc', self.name, type(e).__name__)
         finally:
             if self.on_delivered is not None:
                 self.on_delivered(item)
